@@ -13,8 +13,9 @@ Theorem cycle_vector_length : forall P rg mask ph out,
   get_cycle_vector P rg mask ph = Some out -> length out = length ph.
 Proof. exact CycleVecFacts.cycle_vector_length. Qed.
 
-(* segments are non-empty and inside the recording *)
+(* segments are non-empty and inside the recording (the boundary list is only used when a wrap exists) *)
 Theorem segments_nonempty : forall P ph a b,
+  wrap_hits P ph <> [] ->
   In (a, b) (adj (boundaries P ph)) -> (a < b <= length ph)%nat.
 Proof. exact CycleVecFacts.segments_nonempty. Qed.
 
